@@ -144,5 +144,66 @@ mod verif_replay {
         }
         println!("REPLAY-STATS c04_client_key inputs={} all-ok", n);
     }
-}
 
+    /// the byte-array wrappers and the group constants: from_le_bytes / as_le_bytes / as_bigint / == / defaults (bounded search;
+    /// fallback for the accessor and trait-impl contracts when one of them leaves the verified shape)
+    #[test]
+    fn verif_search_c01_wrappers() {
+        use crate::primes::{Generator, KValue, LargeSafePrime};
+        use crate::bigint::Integer;
+        let seed = std::env::var("VERIF_SEED").ok().and_then(|s| s.parse::<u64>().ok()).unwrap_or(0) ^ 0x9E3779B97F4A7C15;
+        let mut r = seed;
+        let mut next = move || { r ^= r << 13; r ^= r >> 7; r ^= r << 17; r };
+        let mut n = 0u64;
+        macro_rules! fail { ($($a:tt)*) => { { println!("REPLAY-FAIL c01_wrappers {}", format!($($a)*)); return; } } }
+        // value of a little-endian byte string, as the 32-byte padded array (values here are < 2^256)
+        fn padded(b: &[u8]) -> [u8; 32] { let mut o = [0u8; 32]; o[..b.len().min(32)].copy_from_slice(&b[..b.len().min(32)]); o }
+        macro_rules! wrapper_plain { ($t:ident, $len:expr) => { {
+            for round in 0..200u32 {
+                let mut k = [0u8; $len]; for x in k.iter_mut() { *x = next() as u8; }
+                match round { 0 => k = [0u8; $len], 1 => k = [0xff; $len], 2 => { k = [0u8; $len]; k[0] = 1; }, 3 => { k = [0u8; $len]; k[$len - 1] = 0x80; }, 4 => { for z in 0..($len / 2) { k[$len - 1 - z] = 0; } }, 5 => { for z in 0..($len / 2) { k[z] = 0; } }, _ => {} }
+                n += 1;
+                let a = $t::from_le_bytes(k);
+                if *a.as_le_bytes() != k { fail!("{}::from_le_bytes / as_le_bytes do not round-trip {:02x?}", stringify!($t), k); }
+                let b = a;
+                if !(a == b) || a != b { fail!("{} is not equal to its own copy", stringify!($t)); }
+                for pos in 0..$len { for mask in [0x01u8, 0x80, 0xff] { let mut o = k; o[pos] ^= mask; if $t::from_le_bytes(o) == a { fail!("{} values differing in byte {} compare equal", stringify!($t), pos); } } }
+                if $len >= 2 { let mut o = k; o[0] ^= 0x40; o[$len - 1] ^= 0x40; if $t::from_le_bytes(o) == a { fail!("{} values differing in two bytes by the same mask compare equal", stringify!($t)); } }
+            }
+        } } }
+        macro_rules! bigint_of { ($t:ident, $len:expr) => { {
+            for round in 0..200u32 {
+                let mut k = [0u8; $len]; for x in k.iter_mut() { *x = next() as u8; }
+                match round { 0 => k = [0u8; $len], 1 => k = [0xff; $len], 2 => { k = [0u8; $len]; k[0] = 1; }, 3 => { for z in 0..($len / 2) { k[$len - 1 - z] = 0; } }, _ => {} }
+                n += 1;
+                if $t::from_le_bytes(k).as_bigint().to_padded_32_byte_array_le() != padded(&k) { fail!("{}::as_bigint is not the little-endian value of {:02x?}", stringify!($t), k); }
+            }
+        } } }
+        wrapper_plain!(Salt, 32); wrapper_plain!(PrivateKey, 32); wrapper_plain!(Sha1Hash, 20); wrapper_plain!(Verifier, 32); wrapper_plain!(Proof, 20);
+        wrapper_plain!(SKey, 32); wrapper_plain!(ReconnectData, 16); wrapper_plain!(SessionKey, 40);
+        bigint_of!(PrivateKey, 32); bigint_of!(Sha1Hash, 20); bigint_of!(Verifier, 32);
+        // PublicKey: checked constructor
+        for round in 0..300u32 {
+            let mut k = [0u8; 32]; for x in k.iter_mut() { *x = next() as u8; }
+            match round { 0 => { k = [0u8; 32]; k[0] = 1; }, 1 => k = [0xff; 32], 2 => { k = [0u8; 32]; k[31] = 0x80; }, 3 => { k = LARGE_SAFE_PRIME_LITTLE_ENDIAN; k[0] ^= 1; }, 4 => { k = LARGE_SAFE_PRIME_LITTLE_ENDIAN; k[31] ^= 0x80; }, _ => {} }
+            if k == [0u8; 32] || k == LARGE_SAFE_PRIME_LITTLE_ENDIAN { continue; }
+            n += 1;
+            let a = match PublicKey::from_le_bytes(k) { Ok(a) => a, Err(_) => fail!("PublicKey::from_le_bytes refused {:02x?}", k) };
+            if *a.as_le_bytes() != k { fail!("PublicKey::from_le_bytes / as_le_bytes do not round-trip {:02x?}", k); }
+            if a.as_bigint().to_padded_32_byte_array_le() != k { fail!("PublicKey::as_bigint is not the little-endian value of {:02x?}", k); }
+            for pos in 0..32 { let mut o = k; o[pos] ^= 0x10; if o == [0u8; 32] || o == LARGE_SAFE_PRIME_LITTLE_ENDIAN { continue; } if PublicKey::from_le_bytes(o).map(|p| p == a).unwrap_or(false) { fail!("PublicKey values differing in byte {} compare equal", pos); } }
+        }
+        // group constants
+        n += 1;
+        if *LargeSafePrime::default().as_le_bytes() != LARGE_SAFE_PRIME_LITTLE_ENDIAN { fail!("LargeSafePrime::default is not the built-in prime"); }
+        if LargeSafePrime::default().to_bigint().to_padded_32_byte_array_le() != LARGE_SAFE_PRIME_LITTLE_ENDIAN { fail!("LargeSafePrime::to_bigint is not the value of the built-in prime"); }
+        if Generator::default().as_u8() != 7 || Generator::default().to_bigint().to_padded_32_byte_array_le() != padded(&[7]) { fail!("the default generator is not 7"); }
+        if KValue::bigint().to_padded_32_byte_array_le() != padded(&[3]) { fail!("k is not 3"); }
+        for g in 0..=255u8 { n += 1; let gg = Generator::from(g); if gg.as_u8() != g || gg.to_bigint().to_padded_32_byte_array_le() != padded(&[g]) { fail!("Generator::from({}) does not carry {}", g, g); } }
+        for _ in 0..200 { let mut k = [0u8; 32]; for x in k.iter_mut() { *x = next() as u8; } n += 1;
+            let p = LargeSafePrime::from_le_bytes(k);
+            if *p.as_le_bytes() != k || p.to_bigint().to_padded_32_byte_array_le() != k { fail!("LargeSafePrime::from_le_bytes / as_le_bytes / to_bigint do not carry {:02x?}", k); } }
+        let _ = Integer::from(1u8);
+        println!("REPLAY-STATS c01_wrappers inputs={} all-ok", n);
+    }
+}
